@@ -34,6 +34,10 @@ SCRIPTS = {
     "retr-no-data": ["EPSV", "RETR d/f", "PWD"],
     "stor-no-data": ["PASV", "STOR new"],
     "pasv-idle": ["PASV", "@data"],
+    # the data peer stays connected but stops reading (the control connection is read normally)
+    "retr-dstop": ["EPSV", "@data", "@dstop", "RETR d/f"],
+    "list-dstop": ["PASV", "@data", "@dstop", "LIST"],
+    "mlsd-dstop": ["EPSV", "@data", "@dstop", "MLSD d"],
 }
 # sessions that end with QUIT while the peer does not read the replies (only the position after the QUIT is examined)
 QUIT_SCRIPTS = {
@@ -55,6 +59,8 @@ def reference(prefix, cfg, kind):
     t_last_cmd = 0.0          # the greeting: the first read starts at connect
     data = False
     upload = None              # time of last progress of an active upload
+    dstopped = False           # the data peer has stopped reading
+    stalled_download = None    # time a download started towards a data peer that does not read
     waiting = None             # (time the verb arrived) of a worker waiting for its data connection
     waiting_verb = None
     extra = []
@@ -71,6 +77,9 @@ def reference(prefix, cfg, kind):
                 else:
                     data = False
                 waiting = None
+            continue
+        if e == "@dstop":
+            dstopped = True
             continue
         if e.startswith("@dsend"):
             if upload is not None:
@@ -91,6 +100,8 @@ def reference(prefix, cfg, kind):
                     upload = t
                 else:
                     data = False
+                    if dstopped:
+                        stalled_download = t
             else:
                 waiting, waiting_verb = t, verb
     cands = []
@@ -98,6 +109,9 @@ def reference(prefix, cfg, kind):
         cands.append(t_last_cmd + idle)
     if sock is not None and upload is not None:
         cands.append(upload + sock)
+    if sock is not None and stalled_download is not None:
+        # the first block cannot be written (lock-step window): the data connection has stopped moving at the verb
+        cands.append(stalled_download + sock)
     if kind == "noread" and sock is not None:
         # the reply (and first data block) written at the last command stays unread
         cands.append(t_last_cmd + sock)
